@@ -188,6 +188,8 @@ func (builder *RuleBuilder) BuildRuleFromResource(name, version string, resource
 	dur := time.Now().Sub(startTime)
 
 	if errReporter.HasError() {
+		// what the rejected text left in the working memory without a rule entry must not stay there
+		knowledgeBase.WorkingMemory.RemoveUnreachable(knowledgeBase.MakeCatalog().Data)
 		BuilderLog.Errorf("GRL syntax error. got %s", errReporter.Error())
 		for i, err := range errReporter.Errors {
 			BuilderLog.Errorf("%d : %s", i, err.Error())
